@@ -273,7 +273,8 @@ def main(tier, seed, only=None):
     )
     run.assumptions = ["encoding + cspuz z3 backend under test; native route via R-native", "3x3 and larger frames rest on the small-scope argument (local degree rules + connectivity of the split graph)"]
     shards = gcheck.split_shards(cases, lambda c: 40 * len(c['patterns']) if 'patterns' in c else 1 << nseg(c), 128 if tier == "quick" else 512)
-    par.run_shards(run, worker, shards, seed)
+    first, rest = gcheck.heavy_first(shards, _CASES)
+    par.run_shards(run, worker, rest, seed, first=first)
     cov = {
         "evaluations": run.c("evaluations"),
         "distinct_nontrivial": sum(1 << ((h + 1) * w + h * (w + 1)) for h, w in run.total.sets.get("frames", ())),
